@@ -630,9 +630,10 @@ impl XType {
             Self::Compound(ct, spec, original_bind) => {
                 let mut new_bind = Bind::default();
                 for gen_name in spec.generic_names.iter(){
+                    // a parameter the construction left undetermined is the unknown type
                     new_bind.bound_generics.insert(*gen_name, 
                         original_bind.get(gen_name)
-                        .unwrap() // todo is this safe?
+                        .unwrap_or(&X_UNKNOWN)
                         .resolve_bind(bind, tail));
                 }
                 Self::Compound(*ct, spec.clone(), new_bind).into()
